@@ -18,7 +18,7 @@ PROP = {
     "level_text": "Generated-input search: for the seven matrix and four affine types every accessor path (arrays, 2-D arrays, slices, AsRef/AsMut, from_cols, axis fields, col, col_mut, row, from_diagonal, transpose, "
                   "all 9 / 16 (i, j) of Mat2::from_mat3(a)_minor, Mat3(A)::from_mat4_minor and the f64 forms, the affine 'linear columns then translation' split) is compared bit for bit with a [[bits; R]; C] model on "
                   "arbitrary bit patterns including NaN payloads and -0; the action on column vectors (M*v, transform_point/vector in Vec3 and Vec3A forms, A*B, (A*B)*v = A*(B*v)) is compared with the model "
-                  "exactly on small integers and within the forward error bound on reals. All index pairs are visited in every case. Exploration, not proof.",
+                  "exactly on small integers and within the forward error bound on reals. All index pairs are visited in every case. The same sub-checks also run against the SSE2 build with glam-assert compiled in: the generated inputs satisfy the documented preconditions, so a panic there is a failure. Exploration, not proof.",
     "level_note": "Trusted: rustc's f32/f64/i128 arithmetic, the double-double arithmetic of the harness, proptest. NEON/wasm32 backends cannot be built here.",
     "design_ref": "DESIGN.md section 5 C06",
     "assumptions": [
